@@ -27,7 +27,7 @@ CLAIMED['C01'] = {
              'decoding the emitted signature yields the index-resolved tree whatever the sharing. Tied to the code on every run by streams: '
              'engine value per row and pure-Python value vs proved enclosures (exact dyadic exchange, membership decided in Coq), '
              'get_signature bytes and IdManager tables vs the models, 1-3 formulas side by side, shared sub-formulas, a history of a '
-             'failing then a valid evaluation, histories of several BIOGEME objects / separate evaluations / a function created once that share one sub-formula object (stream history_models: simulate, get_value_c with and without a dictionary, create_function, calculate_likelihood, two value sets), constants with long mantissas and the constants -1 / -2 side by side, LogLogit through the pure-Python evaluator with unavailable alternatives.'),
+             'failing then a valid evaluation, histories of several BIOGEME objects / separate evaluations / a function created once that share one sub-formula object (stream history_models: simulate, get_value_c with and without a dictionary, create_function, calculate_likelihood, two value sets), constants with long mantissas and the constants -1 / -2 side by side, LogLogit through the pure-Python evaluator with unavailable alternatives. LogLogit.get_value is tied by a statement-by-statement template (fail-closed) to its Gallina transcription, proved equal to the reference semantics of the logit node wherever the method returns (T01e_python_evaluator_loglogit).'),
     'note': KERNEL + 'the compiled engine is external: its operator semantics are MODELLED (Model/EvalX.v) and only sampled; IEEE rounding is '
             'covered by the 2^-30 relative tolerance; normal CDF: the enclosure is proved (Proofs/PhiP.v) without the Gaussian integral, so 0 <= Phi <= 1 is not proved and enclosures are not clipped to [0,1]; that the normal CDF of the engine and of scipy is this Phi is sampled (stream phi_grid); real-number axioms of the standard '
             'library, classic, functional extensionality, primitive 63-bit integers (Interval/Bignums).',
